@@ -232,6 +232,44 @@ impl C04 {
                         }
                     }
                 }
+                // the attacker's own config AND its extension together (a consistent pair), the victim's badge / mint left in place
+                // (only where something of the victim's remains: a token badge; with config and extension both replaced, the
+                // authority setters act on nothing but the attacker's own accounts)
+                if matches!(*slot, "token_badge_authority" | "config_extension_authority") && c.idx("token_badge").is_some() {
+                    let cfg_i = c.idx(cfg_slot);
+                    let ext_i = c.idx("whirlpools_config_extension");
+                    if let (Some(ci), Some(ei)) = (cfg_i, ext_i) {
+                        if let (Some(ca), Some(ea)) = (v.pre.get(&v.ix.accounts[ci].pubkey), v.pre.get(&v.ix.accounts[ei].pubkey)) {
+                            if ca.data.len() == 108 && ea.data.len() >= 104 && ea.owner == ix::wp() {
+                                let rival_cfg = scratch_key(salt, 4007);
+                                let mut cd = (*ca.data).clone();
+                                for o in [8usize, 40, 72] {
+                                    cd[o..o + 32].copy_from_slice(attacker.as_ref());
+                                }
+                                let mut ed = (*ea.data).clone();
+                                ed[8..40].copy_from_slice(rival_cfg.as_ref());
+                                ed[40..72].copy_from_slice(attacker.as_ref());
+                                ed[72..104].copy_from_slice(attacker.as_ref());
+                                let rival_ext = ix::pda_config_extension(&rival_cfg);
+                                let mut f = base.clone();
+                                f.put(rival_cfg, Account::new(ca.lamports, cd, ca.owner));
+                                f.put(rival_ext, Account::new(ea.lamports, ed, ea.owner));
+                                let mut ixn = v.ix.clone();
+                                ixn.accounts[i].pubkey = attacker;
+                                ixn.accounts[i].is_signer = true;
+                                ixn.accounts[ci].pubkey = rival_cfg;
+                                ixn.accounts[ei].pubkey = rival_ext;
+                                let r = exec(&f, ixn);
+                                cov.eval(format!("{}|{}|rival_config_and_extension", name, slot));
+                                self.cell(format!("{} / {} / rival config + extension pair naming the attacker", name, slot), !r.ok);
+                                if r.ok {
+                                    out.push(v04("rival_container_accepted", idx, format!("{}: succeeded for a stranger who signed as `{}` and presented their own config and config extension, acting on the victim's remaining accounts", name, slot)));
+                                    return;
+                                }
+                            }
+                        }
+                    }
+                }
                 for (kslot, rkey, racct) in rivals {
                     let Some(ki) = c.idx(kslot) else { continue };
                     let mut f = base.clone();
